@@ -27,8 +27,8 @@ theorem eval_fuel_monotone (p : Prog) (n m : Nat) (hnm : n ≤ m) (e : Expr) (en
   obtain ⟨k, rfl⟩ := Nat.exists_eq_add_of_le hnm
   exact eval_add_of_some p n k e env s r h
 
-example : (eval {} 5 (.bin .add (.lit (.i32 2147483647)) (.lit (.i32 1))) []).run {} =
-    some (.error (.trap .overflow), {}) := by decide
+example : (eval {} 9 (.lit (.i32 1)) []).run {} = some (.ok (.int .w32 1), {}) :=
+  eval_fuel_monotone {} 1 9 (by decide) (.lit (.i32 1)) [] {} (.ok (.int .w32 1), {}) rfl
 
 /-! ## `binop_exact`: Int32/Int64 arithmetic is exact or traps -/
 
@@ -82,7 +82,140 @@ theorem binop_exact_mod (w : IW) (a b : Int) (ha : w.inRange a = true) (hb : w.i
   obtain ⟨q, r, hq, rest⟩ := h2 hb0 hmin
   exact ⟨q, r, by simp only [binInt, hq]; rfl, rest⟩
 
-example : binInt .div .w64 (-7) 2 = pure (.int .w64 (-3)) := by decide
-example : binInt .mod .w32 IW.w32.min (-1) = trap .overflow := by decide
+example : divC .w64 (-7) 2 = .ok (-3) := by rfl
+example : modC .w32 IW.w32.min (-1) = .error .overflow := by rfl
+example : addC .w32 2147483647 1 = .error .overflow := by rfl
+example : IW.w64.inRange (-7) = true ∧ IW.w64.inRange 2 = true := by decide
+
+/-! ## wrapping variants wrap -/
+
+/-- `wrapping_add/sub/mul` return the exact result reduced modulo 2^bits into `[min, max]` -/
+theorem wrapping_ops_mod (w : IW) (a b : Int) :
+    primMeth "wrapping_add" (.int w a) [.int w b] = pure (.int w (w.wrap (a + b))) ∧
+    primMeth "wrapping_sub" (.int w a) [.int w b] = pure (.int w (w.wrap (a - b))) ∧
+    primMeth "wrapping_mul" (.int w a) [.int w b] = pure (.int w (w.wrap (a * b))) ∧
+    (∀ x : Int, w.inRange (w.wrap x) = true ∧ (w.wrap x - x) % (2 : Int) ^ w.bits = 0) := by
+  refine ⟨?_, ?_, ?_, fun x => wrap_spec w x⟩ <;> simp [primMeth, addW, subW, mulW]
+
+example : IW.w32.wrap (2147483647 + 1) = -2147483648 := by rfl
+
+/-! ## shifts trap on out-of-range amounts -/
+
+/-- `<<`, `>>` (arithmetic), `>>>` (logical) trap `shift amount out of bounds` iff the amount is not in
+    `[0, bits)`; in range they return `wrap (a * 2^n)`, `⌊a / 2^n⌋`, `wrap (unsigned a / 2^n)` -/
+theorem shift_semantics (w : IW) (a n : Int) :
+    (shlC w a n = .error .shift ↔ ¬ (0 ≤ n ∧ n < (w.bits : Int))) ∧
+    (sarC w a n = .error .shift ↔ ¬ (0 ≤ n ∧ n < (w.bits : Int))) ∧
+    (shrC w a n = .error .shift ↔ ¬ (0 ≤ n ∧ n < (w.bits : Int))) ∧
+    (0 ≤ n ∧ n < (w.bits : Int) →
+      shlC w a n = .ok (w.wrap (a * 2 ^ n.toNat)) ∧ sarC w a n = .ok (a / 2 ^ n.toNat) ∧
+      shrC w a n = .ok (w.wrap (w.toUnsigned a / 2 ^ n.toNat))) :=
+  ⟨shlC_traps_iff w a n, sarC_traps_iff w a n, shrC_traps_iff w a n,
+   fun h => ⟨shlC_ok w a n h.1 h.2, sarC_ok w a n h.1 h.2, shrC_ok w a n h.1 h.2⟩⟩
+
+/-- the interpreter's `<<` on an Int32/Int64 value with an Int32 amount is `shlC` -/
+theorem shift_in_interpreter (w : IW) (a n : Int) :
+    binPrim .shl (.int w a) (.int .w32 n) = (do pure (.int w (← liftE (shlC w a n)))) := by
+  cases w <;> rfl
+
+example : shlC .w32 1 32 = .error .shift ∧ shlC .w64 1 (-1) = .error .shift ∧ shlC .w32 1 31 = .ok (-2147483648) := by
+  refine ⟨by rfl, by rfl, by rfl⟩
+
+/-! ## comparisons are total -/
+
+/-- for all operands exactly one of `<`, `==`, `>` holds, and `<=, !=, >=` are their combinations -/
+theorem comparison_total (a b : Int) :
+    ((CmpOp.eval .lt a b = true ∧ CmpOp.eval .eq a b = false ∧ CmpOp.eval .gt a b = false) ∨
+     (CmpOp.eval .lt a b = false ∧ CmpOp.eval .eq a b = true ∧ CmpOp.eval .gt a b = false) ∨
+     (CmpOp.eval .lt a b = false ∧ CmpOp.eval .eq a b = false ∧ CmpOp.eval .gt a b = true)) ∧
+    CmpOp.eval .le a b = (CmpOp.eval .lt a b || CmpOp.eval .eq a b) ∧
+    CmpOp.eval .ne a b = !CmpOp.eval .eq a b ∧ CmpOp.eval .ge a b = !CmpOp.eval .lt a b := by
+  refine ⟨?_, cmp_le a b, cmp_ne a b, cmp_ge a b⟩
+  simp only [CmpOp.eval, decide_eq_true_eq, decide_eq_false_iff_not]
+  omega
+
+/-! ## operands and arguments: left to right, exactly once -/
+
+/-- Evaluating the argument list `e :: es` from state `s`: first `e` (from `s`, giving `v` and `s₁`),
+    then the rest from `s₁` (giving `vs`, `s₂`); the values arrive in order and the final state (which
+    contains the output printed so far and the heap) is `s₂`.  No argument is evaluated a second time:
+    the only uses of the recursive evaluator are these two. -/
+theorem args_left_to_right_once (rec : Rec) (e : Expr) (es : List Expr) (env : Env) (s s₁ s₂ : St)
+    (v : Val) (vs : List Val)
+    (h₁ : (rec e env).run s = some (.ok v, s₁))
+    (h₂ : (evalList rec es env).run s₁ = some (.ok vs, s₂)) :
+    (evalList rec (e :: es) env).run s = some (.ok (v :: vs), s₂) := by
+  simp only [evalList, ExceptT.run, bind, ExceptT.bind, ExceptT.mk, StateT.bind, ExceptT.bindCont,
+    Option.bind] at *
+  rw [h₁]; simp only [StateT.bind]
+  rw [h₂]; rfl
+
+/-- if an argument stops (traps, exits, …) the arguments to its right are not evaluated: the state in
+    which the call stops is the state in which that argument stopped -/
+theorem args_stop_at_first_trap (rec : Rec) (e : Expr) (es : List Expr) (env : Env) (s s₁ : St)
+    (st : Stop) (h₁ : (rec e env).run s = some (.error st, s₁)) :
+    (evalList rec (e :: es) env).run s = some (.error st, s₁) := by
+  simp only [evalList, ExceptT.run, bind, ExceptT.bind, ExceptT.mk, StateT.bind, ExceptT.bindCont,
+    Option.bind] at *
+  rw [h₁]; rfl
+
+/-- a call evaluates its arguments with `evalList` before anything else happens -/
+theorem call_evaluates_args_first (p : Prog) (rec : Rec) (f : String) (args : List Expr) (env : Env) :
+    step p rec (.call f args) env =
+      (do let vs ← evalList rec args env
+          match p.findFn f with
+          | some d => callDecl rec d none vs
+          | none => callBuiltin f vs) := rfl
+
+/-- binary operators: left operand, then right operand, then the operation -/
+theorem binop_left_then_right (p : Prog) (rec : Rec) (op : BinOp) (a b : Expr) (env : Env) :
+    step p rec (.bin op a b) env = (do let x ← rec a env; let y ← rec b env; binPrim op x y) := rfl
+
+/-! ## value semantics of structs vs. reference identity of classes -/
+
+/-- Updating field `i` of a struct value builds a new value and touches neither the heap nor any
+    variable cell: every other copy of the old value (another variable, an array element, a field)
+    still holds the old value. -/
+theorem struct_copy_independent (p : Prog) (n f : String) (fs : List Val) (fields : List (String × Ty))
+    (i : Nat) (old nv : Val) (s : St)
+    (hdecl : p.structFields n = some fields) (hidx : fieldIndex fields f = some i) (hi : fs[i]? = some old) :
+    (selSet p [.field f] (.struct n fs) nv).run s = some (.ok (.struct n (listSet fs i nv)), s) := by
+  simp [selSet, selGet, hdecl, hidx, hi, ExceptT.run, bind, ExceptT.bind, ExceptT.mk, StateT.bind,
+    ExceptT.bindCont, pure, ExceptT.pure, StateT.pure]
+
+/-- writing one variable's cell leaves every other cell as it was -/
+theorem cells_independent (c₁ c₂ : Nat) (v : Val) (s : St) (h : c₁ ≠ c₂) :
+    ((writeCell c₁ v).run s).map (fun r => r.2.cells[c₂]?) = some (s.cells[c₂]?) := by
+  simp [writeCell, modSt, modify, modifyGet, MonadStateOf.modifyGet, ExceptT.run, monadLift,
+    MonadLift.monadLift, ExceptT.lift, ExceptT.mk, StateT.modifyGet, Functor.map, StateT.map, bind,
+    pure, Array.getElem?_setIfInBounds_ne h]
+
+/-- Updating field `i` of a class instance through ANY reference to it changes the one heap object:
+    afterwards a read of that field through the same address (i.e. through every alias) sees `nv`. -/
+theorem class_alias_shared (p : Prog) (cls f : String) (fs : List Val) (fields : List (String × Ty))
+    (i a : Nat) (old nv : Val) (s : St)
+    (hobj : s.heap[a]? = some (.obj cls fs))
+    (hdecl : p.classFields cls = some fields) (hidx : fieldIndex fields f = some i) (hi : fs[i]? = some old) :
+    ∃ s', (selSet p [.field f] (.ref a) nv).run s = some (.ok (.ref a), s') ∧
+      s'.heap[a]? = some (.obj cls (listSet fs i nv)) ∧ s'.cells = s.cells := by
+  have ha : a < s.heap.size := by
+    rcases Nat.lt_or_ge a s.heap.size with h | h
+    · exact h
+    · simp [Array.getElem?_eq_none h] at hobj
+  refine ⟨{ s with heap := s.heap.setIfInBounds a (.obj cls (listSet fs i nv)) }, ?_, ?_, rfl⟩
+  · simp [selSet, selGet, heapGet, heapSet, getSt, modSt, hobj, hdecl, hidx, hi, ExceptT.run, bind, ExceptT.bind,
+      ExceptT.mk, StateT.bind, ExceptT.bindCont, pure, ExceptT.pure, StateT.pure, get, getThe, MonadStateOf.get,
+      liftM, monadLift, MonadLift.monadLift, ExceptT.lift, StateT.get, Functor.map, StateT.map, modify, modifyGet,
+      MonadStateOf.modifyGet, StateT.modifyGet]
+  · simp [Array.getElem?_setIfInBounds_self_of_lt ha]
+
+/-! ## the optimizer's algebraic simplifications preserve value and trap -/
+
+/-- every rule of `pkgs/boots/simplification.dora` (as modelled in `Simp.lean`): if the pass rewrites an
+    instruction, the replacement evaluates to the same value or the same trap for all in-range operands;
+    in particular a trapping operation is never folded into a value -/
+theorem simplify_sound (e e' : Simp.Expr) (env : Simp.Env)
+    (h : Simp.simplify e = some e') (hr : e.InRange env) : Simp.eval env e' = Simp.eval env e :=
+  Simp.simplify_sound env h hr
 
 end Dora.Mini.C01
